@@ -99,7 +99,8 @@ func ctxSpecPlace(stack []CTok, d CTok) int {
 	e := directive.Enumeration(d.Kind)
 	for i, p := range stack {
 		pe := directive.Enumeration(p.Kind)
-		if pe.IsAllowedForDirectiveContext(e) {
+		// a URL does not admit a method that carries its own path: such a method ends the URL's context
+		if pe.IsAllowedForDirectiveContext(e) && !(e.IsHTTPRequestMethod() && d.HasPath && pe == directive.URL) {
 			return i
 		}
 		if p.Explicit {
@@ -228,7 +229,6 @@ func ctxSpecResolve(tt []CTok) (string, bool) {
 		}
 		n := &node{id: i, tok: t}
 		p := ctxSpecPlace(toks(), t)
-		e := directive.Enumeration(t.Kind)
 		switch {
 		case p == -2:
 			return fmt.Sprintf("err context %d", i), walked
@@ -243,18 +243,6 @@ func ctxSpecResolve(tt []CTok) (string, bool) {
 				walked = true
 			}
 			parent := stack[p]
-			// documented hoist: a path-bearing HTTP method under a URL becomes a top-level directive
-			if e.IsHTTPRequestMethod() && t.HasPath && directive.Enumeration(parent.tok.Kind) == directive.URL {
-				for _, q := range stack {
-					if q.tok.Explicit {
-						return fmt.Sprintf("err context %d", i), walked
-					}
-				}
-				roots = append(roots, n)
-				stack = []*node{n}
-				walked = true
-				continue
-			}
 			parent.kids = append(parent.kids, n)
 			stack = append([]*node{n}, stack[p:]...)
 		}
